@@ -410,12 +410,19 @@ def run_check(prop, spec, tier, replay=None):
                 continue
             if tried >= 6 or time.time() - t_search > 400:
                 break          # the search for a failing input is bounded; the violation is reported either way
-            tried += 1
             if m.get("md") is None:
                 found = (m, m["ops"], {"first_diff": m["detail"]})
                 break
+            # only a disagreement on the part of the trace this property constrains counts; the history is minimised
+            # with respect to that (not to any disagreement: the search would drift to an unrelated difference)
+            def rel_fails(md_, cfg_, ops_):
+                r_ = corr.compare(md_, cfg_, ops_)
+                return (not r_.get("bad")) and (not r_["ok"]) and bool(spec["relevant"](r_.get("first_diff"), r_))
             try:
-                ops = minimise(m["md"], m["cfg"], m["ops"], diff_fails)
+                if not rel_fails(m["md"], m["cfg"], m["ops"]):
+                    continue
+                tried += 1
+                ops = minimise(m["md"], m["cfg"], m["ops"], rel_fails)
                 r = corr.compare(m["md"], m["cfg"], ops)
             except Exception:
                 continue
